@@ -72,18 +72,33 @@ def doneOf (before after : St) (ps : PickSt) (i : Nat) : List PEv :=
     if i ≥ 1 ∧ was = 0 ∧ a.finishCalls = 1 then [.done id a.doneCode] else []
   | _, _ => []
 
-/-- pick / Done events of one client operation, from the retry-loop events it produced:
-    before attempt i is created, attempt i-1 has been finished and the picker is asked. -/
-def pkEvents (before after : St) : List Ev → PickSt → PickSt × List PEv
-  | [], ps =>
-    (ps, doneOf before after ps after.atts.length)
-  | .newAttempt i _ :: evs, ps =>
-    let d := if i ≥ 2 then doneOf before after ps (i - 1) else []
+/-- pick / Done events of one client operation, from the retry-loop events it produced.  Before a new
+    attempt is created (whether its stream creation then succeeds, `newAttempt`, or fails, `failed`)
+    the attempt that was current has been finished; then the picker is asked; an attempt whose stream
+    creation failed is finished at the top of the next turn of `retryLocked`'s loop, with the error
+    of the failed creation.  `cur` = index of the attempt that is current, `emitted` = attempts whose
+    Done was already reported in this operation. -/
+def pkEventsAux (before after : St) : List Ev → PickSt → Nat → List Nat → PickSt × List PEv
+  | [], ps, _, emitted =>
+    let last := after.atts.length
+    (ps, if emitted.contains last then [] else doneOf before after ps last)
+  | .newAttempt i _ :: evs, ps, _, emitted =>
+    let d := if i ≥ 2 ∧ !emitted.contains (i - 1) then doneOf before after ps (i - 1) else []
     let (pe, rest, n', out) := pickLoop ps.script ps.nextId
     let rec_ : Option Nat := match out with | .picked true id => some id | _ => none
     let ps' : PickSt := { script := rest, nextId := n', attPick := ps.attPick ++ [rec_] }
-    let (ps'', more) := pkEvents before after evs ps'
+    let (ps'', more) := pkEventsAux before after evs ps' i ((i - 1) :: emitted)
     (ps'', d ++ pe ++ more)
-  | _ :: evs, ps => pkEvents before after evs ps
+  | .failed c :: evs, ps, cur, emitted =>
+    let d := if cur ≥ 1 ∧ !emitted.contains cur then doneOf before after ps cur else []
+    let (pe, rest, n', out) := pickLoop ps.script ps.nextId
+    let fin : List PEv := match out with | .picked true id => [.done id c] | _ => []
+    let ps' : PickSt := { ps with script := rest, nextId := n' }
+    let (ps'', more) := pkEventsAux before after evs ps' cur (cur :: emitted)
+    (ps'', d ++ pe ++ fin ++ more)
+  | _ :: evs, ps, cur, emitted => pkEventsAux before after evs ps cur emitted
+
+def pkEvents (before after : St) (evs : List Ev) (ps : PickSt) : PickSt × List PEv :=
+  pkEventsAux before after evs ps before.atts.length []
 
 end GrpcModel.PickDone
